@@ -23,20 +23,6 @@ def cases(draw, tier='quick'):
     case = draw(inf.est_cases(min_attrs=2, max_attrs=4, max_size=4, min_size=draw(st.sampled_from([2, 2, 2, 1])), cap=200, min_m=1, max_m=5, zeros=False, iters=(500,),
                               totals=(1.0, 10, 1000.0, 37.5, None)))
     case['stepsize'] = None
-    if draw(st.integers(0, 5)) == 0:
-        # long chordless cycle of pairwise measurements (needs second-order fill-in in the junction tree)
-        n = draw(st.integers(5, 6))
-        names = list(draw(st.permutations(gen.NAMES[:n])))
-        case['domain'] = {'attrs': names, 'shape': [2] * n}
-        cyc = list(draw(st.permutations(names)))
-        meas = []
-        for i in range(n):
-            e = [cyc[i], cyc[(i + 1) % n]]
-            meas.append({'proj': e if draw(st.booleans()) else e[::-1], 'q': {'kind': draw(st.sampled_from(['none', 'identity', 'dense'])), 'rows': 4, 'seed': draw(st.integers(0, 10**6)), 'c': 2.0},
-                         'noise': draw(st.sampled_from([1.0, 0.5, 2.0])), 'yseed': draw(st.integers(0, 10**6)), 'noise_mult': 3.0})
-        case['meas'] = meas
-        case['witness'] = [0] * n
-        case['elim'] = 'none'
     return case
 
 
